@@ -16,5 +16,8 @@ claim("C20", "SSA graph-cut + who-may-write + store-shape over congestion window
 claim("C15", "SSA graph-cut + who-may-write + store-shape + dispatch-table rules, evaluated per generic instantiation of the streams maps",
       "Every-path structural checks on all four instantiations: incoming creation only beyond id<=maxStream else STREAM_LIMIT_ERROR, credit re-issued only after deletion of an accepted stream with the limit formula and a paired MAX_STREAMS, openStream only beyond nextStream<=maxStream since the last lock acquisition, IDs +4, STREAMS_BLOCKED once per limit, FIFO head signalling, direction/initiator dispatch with STREAM_STATE_ERROR, accept cursor advanced exactly once. Counting bounds over completion orders are not decided.",
       "DESIGN.md §3 C15")
-for pid in ["C01","C02","C03","C05","C08","C09","C10","C11","C12","C13","C16","C17","C18","C19"]:
+claim("C13", "SSA graph-cut must-pass-through of every acceptance rule for Retry / Version Negotiation / transport-parameter authentication; select-case tables of the run loop",
+      "Every path to a handshake-outcome-changing effect passes each rejection test (Retry: 5, VN: 5, connection-ID authentication: ISCID/ODCID/Retry SCID both ways); wrong-version, unexpected-SCID and client-side 0-RTT packets are dropped before unpacking; run-loop wait has close and timer cases; 0-RTT rejection resets every component. Convergence of both endpoints is not decided.",
+      "DESIGN.md §3 C13")
+for pid in ["C01","C02","C03","C05","C08","C09","C10","C11","C12","C16","C17","C18","C19"]:
     na(pid, "rules for this property are designed (DESIGN.md §3) but not yet implemented in the checker; not claimed until they are")
